@@ -37,13 +37,28 @@ func main() {
 		{"PointIndexGen.v", genPointIndex},
 		{"LineGen.v", genLine},
 		{"ChildrenGen.v", genChildren},
+		{"FindGen.v", genFind},
+		{"HitsGen.v", genHits},
+		{"DescentGen.v", genDescent},
 		{"KmpGen.v", genKmp},
 		{"SnapSmallGen.v", genSnapSmall},
 		{"KmpDedupGen.v", genKmpDedup},
 		{"CleanupRingGen.v", genCleanupRing},
 		{"SplitTailGen.v", genSplitTail},
+		{"MatchGen.v", genMatch},
+		{"DedupeGen.v", genDedupe},
+		{"SplitWalkGen.v", genSplitWalk},
 		{"TmsData.v", genTmsData},
 		{"CliGen.v", genCli},
+		{"CliMainGen.v", genCliMain},
+		{"RingHelpersGen.v", genRingHelpers},
+		{"QuadTreeGen.v", genQuadTree},
+		{"GpkgWriterGen.v", genGpkgWriter},
+		{"TmsAddrGen.v", genTmsAddr},
+		{"PipeGen.v", genPipe},
+		{"IndexTopGen.v", genIndexTop},
+		{"TmsJsonGen.v", genTmsJson},
+		{"SnapTopGen.v", genSnapTop},
 	}
 	failed := false
 	for _, g := range gens {
